@@ -310,6 +310,23 @@ PROPS["C17"] = dict(
     note="Trusted: glob, re, os, solvers, pyvc.  Finding F7 known; F9 fixed.",
 )
 
+PROPS["C02"] = dict(
+    modules=["contracts.C08_claims", "contracts.C08_bounded", "contracts.C02_order", "contracts.C02_bounded"],
+    decided=["every list argument of define_step, amend_step and declare_static_files is used only through "
+             "sorted(set(argument)) (dataflow scan)", "node enumerations are ordered by the unique key (kind, label)",
+             "acceptance of two conflicting declarations is decided by the same conflict predicate in both arrival orders "
+             "(C08 contracts; findings F3, F8)"],
+    undecided=["sentences 1 and 2: identical final graph and identical success for every job count, duration and completion "
+               "order (bounded stand-in: every schedule of four small worlds)", "the texts of the conflict messages: "
+               "bounded (exhaustive over roles, flags and order types of the creators)", "resumed versus fresh databases "
+               "(C04 / C05 stand-ins)"],
+    assumptions=["one transaction per RPC request, serialised by the DBSession lock (C15)"],
+    level="The order-normalising mechanisms are structural obligations on the real source; acceptance symmetry is the "
+          "contract work of C08; the statements that quantify over schedules are a bounded stand-in exploring every schedule "
+          "of small worlds on the real scheduler, with run-time amendments and deferrals.",
+    note="Trusted: SQLite ORDER BY, solvers, pyvc.",
+)
+
 NOT_BUILT = {}
 
 _loaded = False
